@@ -55,8 +55,13 @@ Proof.
 Qed.
 
 (* ---------- cache transparency ---------- *)
+(* every link expression of the world reports, for its world-coordinate leaves, dimensions that cover the pixel axes used *)
+Definition wf_world (W : world) : Prop :=
+  forall s t i e, nth_error (get_links W s t) i = Some (Some e) -> wf_exprb e = true.
+
 Section Cache.
 Variable W : world.
+Hypothesis HW : wf_world W.
 
 Definition good_a (ae : option aentry) : Prop :=
   match ae with
@@ -94,8 +99,8 @@ Lemma axis_of_like : forall s t i D bs bs' tr,
   axis_of W s t i bs' = Some tr.
 Proof.
   intros s t i D bs bs' tr HL H Hd. unfold axis_of in *.
-  destruct (nth_error (get_links W s t) i) as [[e|]|]; try discriminate.
-  inversion H; subst. f_equal. apply (axis_result_like e _ D); [exact HL|]. exact Hd.
+  destruct (nth_error (get_links W s t) i) as [[e|]|] eqn:EN; try discriminate.
+  inversion H; subst. f_equal. apply (axis_result_like e _ D); [exact (HW s t i e EN)|exact HL|]. exact Hd.
 Qed.
 
 Lemma mapM_like : forall s t D bs bs' l axes,
@@ -254,18 +259,21 @@ End Cache.
 
 (* ---------- every sample is the nearest source pixel, or the fill value ---------- *)
 Definition inrange (k : Z) (size : nat) : bool := (0 <=? k)%Z && (k <? Z.of_nat size)%Z.
+Definition inrange_o (k : option Z) (size : nat) : bool := match k with Some z => inrange z size | None => false end.
+Definition to_nat_o (k : option Z) : nat := match k with Some z => Z.to_nat z | None => 0%nat end.
 
-Lemma invalid_inrange : forall k size, ((k <? 0)%Z || (k >=? Z.of_nat size)%Z) = negb (inrange k size).
+Lemma invalid_inrange : forall k size, invalid_idx size k = negb (inrange_o k size).
 Proof.
-  intros k size. unfold inrange.
+  intros [k|] size; [|reflexivity]. unfold invalid_idx, inrange_o, inrange.
   destruct (k <? 0)%Z eqn:E1, (k >=? Z.of_nat size)%Z eqn:E2, (0 <=? k)%Z eqn:E3, (k <? Z.of_nat size)%Z eqn:E4; simpl; try reflexivity;
     rewrite ?Z.ltb_lt, ?Z.ltb_ge, ?Z.leb_le, ?Z.leb_gt, ?Z.geb_leb in *; rewrite ?Z.leb_le, ?Z.leb_gt in *; lia.
 Qed.
 
-Definition raw_idx (W : world) (s t : nat) (bs : list bound) (g : list nat) (i : nat) : Z :=
+(* the rounded linked position of source axis i at sample g; None when the position is not a finite number *)
+Definition raw_idx (W : world) (s t : nat) (bs : list bound) (g : list nat) (i : nat) : option Z :=
   match nth_error (get_links W s t) i with
-  | Some (Some e) => round_half_even (eval e (pos_at bs g))
-  | _ => 0%Z
+  | Some (Some e) => option_map round_half_even (eval e (pos_at bs g))
+  | _ => None
   end.
 
 Lemma frb_nearest : forall W s t w bc bs sh vals,
@@ -274,15 +282,19 @@ Lemma frb_nearest : forall W s t w bc bs sh vals,
   forall p, (p < length (all_indices (grid_shape bs)))%nat ->
     let g := nth p (all_indices (grid_shape bs)) [] in
     let d := get_data W s in
-    exists idx : list Z,
+    exists idx : list (option Z),
       length idx = ndim W s /\
       (forall i, (i < ndim W s)%nat ->
          exists e, nth_error (get_links W s t) i = Some (Some e) /\
-                   Qabs (inject_Z (nth i idx 0%Z) - eval e (pos_at bs g)) <= 1 # 2 /\
-                   (forall k, Qabs (inject_Z k - eval e (pos_at bs g)) < 1 # 2 -> nth i idx 0%Z = k)) /\
+                   match eval e (pos_at bs g) with
+                   | Some x => exists k, nth i idx None = Some k /\
+                                         Qabs (inject_Z k - x) <= 1 # 2 /\
+                                         (forall k', Qabs (inject_Z k' - x) < 1 # 2 -> k = k')
+                   | None => nth i idx None = None
+                   end) /\
       nth p vals None =
-        (if forallb (fun i => inrange (nth i idx 0%Z) (nth i (dshape d) 0%nat)) (seq 0 (ndim W s))
-         then nth (flat_index (dshape d) (map Z.to_nat idx)) (src_vals d w) (fill w)
+        (if forallb (fun i => inrange_o (nth i idx None) (nth i (dshape d) 0%nat)) (seq 0 (ndim W s))
+         then nth (flat_index (dshape d) (map to_nat_o idx)) (src_vals d w) (fill w)
          else fill w).
 Proof.
   intros W s t w bc bs sh vals H. unfold frb_core in H.
@@ -303,36 +315,69 @@ Proof.
     unfold axis_of in Hnth. destruct (nth_error (get_links W s t) i) as [[e|]|]; try discriminate.
     exists e. split; [reflexivity|]. inversion Hnth. reflexivity. }
   set (npts := length (all_indices (grid_shape bs))) in *.
-  (* the un-clamped rounded index of axis i at sample p *)
   assert (Hraw : forall i, (i < nd)%nat ->
-            nth p (inval (nth i axes dflt)) false = negb (inrange (raw_idx W s t bs g i) (nth i (dshape d) 0%nat)) /\
-            (inrange (raw_idx W s t bs g i) (nth i (dshape d) 0%nat) = true ->
-             nth p (tc (nth i axes dflt)) 0%Z = raw_idx W s t bs g i)).
+            nth p (inval (nth i axes dflt)) false = negb (inrange_o (raw_idx W s t bs g i) (nth i (dshape d) 0%nat)) /\
+            (inrange_o (raw_idx W s t bs g i) (nth i (dshape d) 0%nat) = true ->
+             Z.to_nat (nth p (tc (nth i axes dflt)) 0%Z) = to_nat_o (raw_idx W s t bs g i))).
   { intros i Hi. destruct (Hax i Hi) as [e [He Ha]]. rewrite Ha. unfold raw_idx. rewrite He. unfold axis_result. simpl.
     split.
-    - rewrite (nth_map' _ _ p false 0%Z) by (rewrite map_length; exact Hp).
-      rewrite (nth_map' _ _ p 0%Z []) by exact Hp. fold g. apply invalid_inrange.
-    - intros Hin. rewrite (nth_map' _ _ p 0%Z 0%Z) by (rewrite map_length; exact Hp).
-      rewrite (nth_map' _ _ p 0%Z []) by exact Hp. fold g.
-      rewrite invalid_inrange. rewrite Hin. reflexivity. }
+    - rewrite (nth_map' _ _ p false None) by (rewrite map_length; exact Hp).
+      rewrite (nth_map' _ _ p None []) by exact Hp. fold g. apply invalid_inrange.
+    - intros Hin. rewrite (nth_map' _ _ p 0%Z None) by (rewrite map_length; exact Hp).
+      rewrite (nth_map' _ _ p None []) by exact Hp. fold g.
+      destruct (option_map round_half_even (eval e (pos_at bs g))) as [z|] eqn:EO; [|discriminate].
+      unfold clamp_idx. rewrite invalid_inrange. rewrite Hin. reflexivity. }
   exists (map (raw_idx W s t bs g) (seq 0 nd)).
   split; [rewrite map_length, seq_length; reflexivity|]. split.
   - intros i Hi. destruct (Hax i Hi) as [e [He _]]. exists e. split; [exact He|].
-    rewrite nth_map_seq by exact Hi. unfold raw_idx. rewrite He. split; [apply round_nearest|].
-    intros k Hk. apply round_unique. exact Hk.
+    rewrite nth_map_seq by exact Hi. unfold raw_idx. rewrite He.
+    destruct (eval e (pos_at bs g)) as [x|]; simpl; [|reflexivity].
+    exists (round_half_even x). split; [reflexivity|]. split; [apply round_nearest|].
+    intros k' Hk. apply round_unique. exact Hk.
   - rewrite nth_map_seq by exact Hp.
     rewrite (list_as_map_seq axes dflt) at 1. rewrite Hlen.
     rewrite existsb_negb_forallb. rewrite forallb_map'.
     rewrite (forallb_ext_in
                (fun x => negb (nth p (inval (nth x axes dflt)) false))
-               (fun i => inrange (nth i (map (raw_idx W s t bs g) (seq 0 nd)) 0%Z) (nth i (dshape d) 0%nat))).
+               (fun i => inrange_o (nth i (map (raw_idx W s t bs g) (seq 0 nd)) None) (nth i (dshape d) 0%nat))).
     2:{ intros i Hi. apply in_seq in Hi. destruct (Hraw i ltac:(lia)) as [H1 _]. rewrite H1. rewrite negb_involutive.
         rewrite nth_map_seq by lia. reflexivity. }
-    destruct (forallb (fun i => inrange (nth i (map (raw_idx W s t bs g) (seq 0 nd)) 0%Z) (nth i (dshape d) 0%nat)) (seq 0 nd)) eqn:EF;
+    destruct (forallb (fun i => inrange_o (nth i (map (raw_idx W s t bs g) (seq 0 nd)) None) (nth i (dshape d) 0%nat)) (seq 0 nd)) eqn:EF;
       simpl; [|reflexivity].
     f_equal. f_equal.
     rewrite (list_as_map_seq axes dflt) at 1. rewrite Hlen. rewrite !map_map.
     apply map_ext_in. intros i Hi. apply in_seq in Hi.
     rewrite forallb_forall in EF. specialize (EF i). rewrite nth_map_seq in EF by lia.
-    destruct (Hraw i ltac:(lia)) as [_ H2]. rewrite H2; [reflexivity|]. apply EF. apply in_seq. lia.
+    destruct (Hraw i ltac:(lia)) as [_ H2]. apply H2. apply EF. apply in_seq. lia.
+Qed.
+
+(* a sample whose linked position is not a finite number on some source axis holds the fill value *)
+Lemma undefined_position_is_fill : forall W s t w bc bs sh vals p i e,
+  frb_core W s t w bc bs = OkArr sh vals ->
+  (p < length (all_indices (grid_shape bs)))%nat -> (i < ndim W s)%nat ->
+  nth_error (get_links W s t) i = Some (Some e) ->
+  eval e (pos_at bs (nth p (all_indices (grid_shape bs)) [])) = None ->
+  nth p vals None = fill w.
+Proof.
+  intros W s t w bc bs sh vals p i e H Hp Hi He Hev.
+  destruct (frb_nearest W s t w bc bs sh vals H) as [_ [_ Hs]].
+  destruct (Hs p Hp) as [idx [Hlen [Hidx Hval]]]. rewrite Hval.
+  destruct (Hidx i Hi) as [e' [He' Hm]]. rewrite He in He'. inversion He'; subst e'. rewrite Hev in Hm.
+  destruct (forallb (fun i0 => inrange_o (nth i0 idx None) (nth i0 (dshape (get_data W s)) 0%nat)) (seq 0 (ndim W s))) eqn:EF; [|reflexivity].
+  rewrite forallb_forall in EF. specialize (EF i). rewrite Hm in EF. simpl in EF.
+  assert (In i (seq 0 (ndim W s))) by (apply in_seq; lia). specialize (EF H0). discriminate.
+Qed.
+
+(* a computable check of the well-formedness hypothesis *)
+Definition wf_worldb (W : world) : bool :=
+  forallb (fun l => forallb (fun oe : option pexpr => match oe with Some e => wf_exprb e | None => true end) (snd l)) (links W).
+
+Lemma wf_worldb_sound : forall W, wf_worldb W = true -> wf_world W.
+Proof.
+  intros W H s t i e Hn. unfold wf_worldb in H. rewrite forallb_forall in H.
+  unfold get_links in Hn.
+  destruct (find (fun x => Nat.eqb (fst (fst x)) s && Nat.eqb (snd (fst x)) t) (links W)) as [x|] eqn:EF.
+  - apply find_some in EF. destruct EF as [Hin _]. specialize (H x Hin). rewrite forallb_forall in H.
+    apply nth_error_In in Hn. exact (H (Some e) Hn).
+  - destruct i; discriminate.
 Qed.
